@@ -764,7 +764,7 @@ class VProg:
         if p == "catch_gen_for":
             return ["def *pq(x: Int): Int", "  yield 1", "  throw unchecked " + lit1, "end"], \
                 ["s0 := 0", "do", "  for v0 in pq(1)", "    s0 += v0", "  end", "catch e0", "  println(\"c\")", "end"], \
-                [("C", v, "D", [[(A, 3, 0), (B, 3, 0)], [(A, 3, 0)]])]
+                [("S" if lit1 == ":stop_iteration" else "C", v, "D", [[(A, 3, 0), (B, 3, 0)], [(A, 3, 0)]])]   # NEXT takes a :stop_iteration for the end
         return [], [], []
 
     def vcode(self, kind):
@@ -1029,7 +1029,7 @@ def value_programs(ctx, stream):
         ks = list(names)
         hr.shuffle(ks)
         for k in ["native_stop", "stop_sym", "symbol", "string"] + ks[:ctx.n(3, 40)]:
-            for _ in range(ctx.n(1, 6)):
+            for _ in range(ctx.n(3, 12) if k == "native_stop" else ctx.n(1, 6)):
                 progs.append(VProg(hr.below(1 << 40), hr.range(1, 4), k, hr.choice(["", ""] + BOUNDARIES), ph))
     return progs
 
@@ -1123,8 +1123,11 @@ def prog_stream(ctx, elk, model):
                "generated call chains of depth 1-8 (top-level defs, module and instance methods, closures, native map "
                "callbacks, async/await, generators in for loops; tail and non-tail calls; single- and multi-line call "
                "layouts; random blank/comment padding) ending in `throw`; `elk run`, stack trace parsed and compared with "
-               "the chain computed by the extracted Coq trace model from the generator's frame scenario; "
-               "distinct = distinct (kinds, call forms, layouts) skeletons",
+               "the chain computed by the extracted Coq trace model from the generator's frame scenario; third generation "
+               "(value_programs): thrown value kind (26 kinds: references, inline values, native errors) x boundary kind (21) "
+               "x earlier swallowed/caught error (8 phase-1 forms), expectation from the extracted stored-trace protocol "
+               "model (`reported`, fixed configuration); "
+               "distinct = distinct (kinds, call forms, layouts[, value kind, phase 1]) skeletons",
                samples, dist, mismatches=mism, corpus_cases=ncorpus, unusable=crashed)
 
 
@@ -1136,7 +1139,14 @@ def run(ctx):
         "plain list) within the callers' preconditions, incl. identical panics; C32_prologue_shift: after the insertion "
         "every old offset i answers at i+n, the inserted offsets answer the first line, the table accounts for n more bytes; "
         "BuildStackTrace lists exactly the non-empty frames in stack order with the running function last and lines taken "
-        "at ip-1; BuildStackTracePrepend/await chains concatenate outermost first. "
+        "at ip-1; BuildStackTracePrepend/await chains concatenate outermost first; the stored-trace protocol of "
+        "vm/thread.go (errStackTrace/errValue: rethrow stores at a stopVM frame, throwIfErr reuses the stored trace for an "
+        "equal value, with the fix that it forgets the trace when its instruction finished without an error) prints, for "
+        "every earlier history of swallowed/caught errors of any value and every uncaught error handed back through any "
+        "number of nested runs, the trace assembled at the ORIGINAL throw (C32_reported_trace), independent of the error "
+        "value - trace assembly takes no value at all (C32_trace_value_independent); as found (no clearing) this holds only "
+        "without earlier swallowed errors (_as_found_partial, C32_stale_trace_as_found_refuted), and reusing the trace for "
+        "references only loses the nested frames of every inline value (C32_reference_only_reuse_refuted). "
         "Differential only: that the compiler emits the right line for each instruction and credits the prologue with its "
         "real size (c32.lines: every function of compiled programs, incl. shapes around the PREP_LOCALS8/16 boundary and "
         "65530+ locals, is decoded and its table compared at every byte offset with the table the extracted model builds "
@@ -1145,7 +1155,17 @@ def run(ctx):
         "line are on it), and that the VM's frames are the active call chain (tail calls, nested runs under native methods, "
         "promises) - c32.prog: generated programs, incl. chains through functions with a wide prologue whose call is the "
         "last instruction of its line, whose printed trace is compared with the chain the extracted model assembles from "
-        "the generator's frame scenario.")
+        "the generator's frame scenario; third generation: the THROWN VALUE KIND (String, Error subclass, big Int, BigFloat, "
+        "list; Symbol, :stop_iteration, small Int, Float, Bool, nil, Char, every sized int/float; errors created by native "
+        "code: a native iterator's :stop_iteration, ZeroDivisionError) crossed with every boundary kind (native callbacks "
+        "map/filter/fold/tuple map/set map/map_values/times, user `==` called by native list ==/contains, user `next` "
+        "driven by `for`/splat, user `inspect` in interpolation, user `+` from an instruction, plain closures, direct and "
+        "tail calls, await/await_sync, generators driven by `for`/`next`/splat) and with an earlier phase in which an error "
+        "is swallowed (exhausted generator/iterator in `for`/splat) or caught (across a callback, a generator, a promise); "
+        "the expected trace is what the extracted `reported` (fixed configuration) gives for the history, so the "
+        "stale-trace defect of the unchanged tree shows up as known finding prog:stale-trace:* until "
+        "fixes/C32-stale-stored-trace.patch is applied. That the generated program's events ARE the model's history "
+        "(which links are nested runs, phase-1 snapshots) is the generator's claim, not proved.")
     ctx.trusted_base += [
         "Go int modelled as unbounded Z for byte counts (no overflow: counts are bounded by one function's bytecode size)",
         "compiler.removeBytes (direct InstructionCount edit when an empty EXEC block is dropped) is not modelled; its results "
@@ -1154,6 +1174,10 @@ def run(ctx):
         "the table itself for the line of each instruction's first byte): it ties table shape, byte totals and prologue "
         "accounting to the model, not the compiler's choice of line, which only the marker oracle and c32.prog check",
         "c32.prog expectation: call-site line = first line of the call expression; frame scenario (ip, tables) is synthetic",
+        "c32.prog third generation: the mapping program -> model history (origin kind, which links hand the error back "
+        "through native code, value class reference/inline; phase-1 thread snapshots are synthetic - the proved result does "
+        "not depend on them); Go's == on value.Value modelled as address equality for references and payload equality for "
+        "inline values",
     ]
     ctx.run_proof_gate()
     h = vlib.build_harness("c32")
